@@ -53,7 +53,7 @@ Ev(act, s) ==
      flags |-> <<>>, silent |-> FALSE, mbox |-> "", src |-> "", msgid |-> 0, date |-> 0,
      peek |-> TRUE, code |-> NoCode, told |-> NoTold, out0 |-> NoOut, out |-> NoOut,
      applied |-> <<>>, renames |-> <<>>, special |-> <<>>, dirty |-> [m \in Mbox |-> FALSE],
-     delivered |-> <<>>]
+     delivered |-> <<>>, key |-> "", found |-> <<>>]
 
 ---------------------------------------------------------------------------
 (* items *)
@@ -303,6 +303,22 @@ ExpungeRes(acc, m, ms, gone, s) ==
                 acc |-> Dispatch(a.acc, Watchers(a.acc.ss, m), <<it>>, {s})]
     IN FoldLeft(step, [ms |-> ms, acc |-> acc], order)
 
+(* SEARCH by a flag key (do_search: pended EXPUNGEs refuse a non-UID SEARCH and are
+   sent first for a UID SEARCH; nothing else is flushed; nothing changes) *)
+SearchKeys == {"DELETED", "UNSEEN", "RECENT"}
+Search(s, u, key) ==
+    /\ "Search" \in Acts /\ CanRun(s) /\ Selected(s)
+    /\ LET m == ss[s].sel
+           ev0 == [Ev("Search", s) EXCEPT !.uid = u, !.src = m, !.key = key]
+       IN
+       /\ Clean(m)
+       /\ IF HasPendExp(ss, s) /\ ~u THEN Finish(Acc0, Acc0, [ev0 EXCEPT !.status = "NO"])
+          ELSE LET a1 == IF HasPendExp(ss, s) THEN Flush(Acc0, s, "SEARCH", u) ELSE Acc0
+                   hit == {i \in DOMAIN msgs[m] : KeyHolds(key, msgs[m][i])}
+               IN Finish(a1, [ss |-> a1.ss, out |-> NoOut],
+                         [ev0 EXCEPT !.found = SortedSeq(IF u THEN {msgs[m][i].uid : i \in hit} ELSE hit)])
+    /\ UNCHANGED <<msgs, files, fseq, next, dirty, force, nextId, agent>>
+
 Expunge(s, u, set) ==
     /\ "Expunge" \in Acts /\ CanRun(s) /\ Selected(s)
     /\ LET m == ss[s].sel
@@ -448,6 +464,7 @@ Next ==
     \/ \E s \in Sess, u \in BOOLEAN, set \in Sets, mode \in Modes,
           F \in StoreFlags, silent \in Silents : Store(s, u, set, mode, F, silent)
     \/ \E s \in Sess, u \in BOOLEAN, set \in Sets, peek \in BOOLEAN : Fetch(s, u, set, peek)
+    \/ \E s \in Sess, u \in BOOLEAN, key \in SearchKeys : Search(s, u, key)
     \/ \E s \in Sess : Expunge(s, FALSE, <<>>)
     \/ \E s \in Sess, set \in Sets : Expunge(s, TRUE, set)
     \/ \E s \in Sess, m \in Mbox, F \in StoreFlags \cup {{}} : DoAppend(s, m, F)
